@@ -139,7 +139,7 @@ fn check_jump(prog: &Rc<Prog>, setup: &Setup, h: usize, stats: &mut Stats) {
 pub fn run(tier: Tier) -> i32 {
     let started = std::time::Instant::now();
     let (h, d, k, a, corpus, secs) = match tier {
-        Tier::Quick => (3, 3, 2, 12, 2000, 45),
+        Tier::Quick => (3, 3, 1, 16, 700, 45),
         Tier::Thorough => (4, 4, 3, 16, 40_000, 1800),
     };
     let set = program_set(k, a, corpus);
